@@ -205,21 +205,38 @@ def check(ctx):
     # ---- R5 ----------------------------------------------------------------------------
     wr = sorted({norm(t) for s in ast.walk(sc_.node) if isinstance(s, (ast.Assign, ast.AugAssign)) for t in (s.targets if isinstance(s, ast.Assign) else [s.target])})
     ctx.inst('R5', sc_, 'scale-touches-translation-only', wr == ['self._t_vec'], 'Pose.scale writes %s; rotations must stay unchanged' % wr)
-    fac = ss.params[3]
-    ctx.inst('R5', ss, 'single-factor', all([norm(a) for a in c.args] == [fac] for c in calls) and len(calls) == 2, 'every .scale call receives the one scale factor')
-    rets = [norm(s.value) for s in walk_own(ss.node) if isinstance(s, ast.Return)]
-    ctx.inst('R5', ss, 'returns-factor', rets == ['(bs_scaled, cf_scaled, %s)' % fac], 'the factor is returned with the scaled poses')
     its = sorted(norm(l.iter) for l in walk_own(ss.node) if isinstance(l, ast.For))
     ctx.inst('R5', ss, 'scales-every-pose', its == ['bs_scaled.values()', 'cf_scaled'], 'every base station and every Crazyflie pose is scaled; loops %s' % its)
+    # the factor, followed from each public entry point through _scale_system (wherever the division is written): every .scale call
+    # and the returned factor are the one quotient expected / actual
+    from ..symexec import Explorer as _Ex
+    PURE_ = ('np.linalg.norm', 'cls._calculate_mean_diagonal')
     fp = S.method('scale_fixed_point')
-    st = {norm(s.targets[0]): norm(s.value) for s in fp.node.body if isinstance(s, ast.Assign)}
-    ok = st.get('scale_factor') == 'expected_distance / actual_distance' and st.get('expected_distance') == 'np.linalg.norm(%s)' % fp.params[3] and \
-        st.get('actual_distance') == 'np.linalg.norm(%s.translation)' % fp.params[4]
-    ctx.inst('R5', fp, 'factor=expected/actual', ok, 'reference distance: factor = |expected| / |actual|')
     sd = S.method('scale_diagonals')
-    st = {norm(s.targets[0]): norm(s.value) for s in sd.node.body if isinstance(s, ast.Assign)}
-    ctx.inst('R5', sd, 'factor=expected/estimated-diagonal', st.get('scale_factor') == '%s / estimated_diagonal' % sd.params[4] and
-             st.get('estimated_diagonal', '').startswith('cls._calculate_mean_diagonal('), 'sensor diagonal: factor = expected / estimated')
+    for entry, want_txt, key in ((fp, 'np.linalg.norm(%s) / np.linalg.norm(%s.translation)' % (fp.params[3], fp.params[4]), 'factor=expected/actual'),
+                                 (sd, '%s / cls._calculate_mean_diagonal(%s, %s, %s)' % (sd.params[4], sd.params[1], sd.params[2], sd.params[3]), 'factor=expected/estimated-diagonal')):
+        want = canon(ast.parse(want_txt, mode='eval').body)
+        seen_scale, seen_ret, n_scale = set(), set(), 0
+        for p_ in _Ex(entry, pure=PURE_).run():
+            r_ = p_.returned()
+            if p_.outcome[0] != 'return' or not (isinstance(r_, ast.Call) and norm(r_.func) in ('cls._scale_system', 'self._scale_system')):
+                seen_ret.add('<not through _scale_system>')
+                continue
+            env = dict(zip(ss.params[1:], r_.args))
+            for q_ in _Ex(ss, env=env, pure=PURE_).run():
+                for e_ in q_.events:
+                    if e_.kind == 'call' and method_call(e_.node, 'scale'):
+                        n_scale += 1
+                        seen_scale.add(canon(e_.node.args[0]) if len(e_.node.args) == 1 else '<args>')
+                rr = q_.returned()
+                seen_ret.add(canon(rr.elts[2]) if isinstance(rr, ast.Tuple) and len(rr.elts) == 3 else '<shape>')
+        ctx.inst('R5', entry, key, seen_scale == {want} and seen_ret == {want} and n_scale >= 2,
+                 'every pose is scaled by, and the caller is told, the single factor %s; scale arguments %s, returned %s' % (want, sorted(seen_scale), sorted(seen_ret)))
+    calls_ = [c for c in walk_own(ss.node) if method_call(c, 'scale')]
+    ctx.inst('R5', ss, 'single-factor', len({norm(a) for c in calls_ for a in c.args}) == 1 and len(calls_) == 2 and all(len(c.args) == 1 for c in calls_), 'every .scale call receives the same scale factor expression')
+    rets = [s_.value for s_ in walk_own(ss.node) if isinstance(s_, ast.Return)]
+    ctx.inst('R5', ss, 'returns-factor', len(rets) == 1 and isinstance(rets[0], ast.Tuple) and [norm(e) for e in rets[0].elts[:2]] == ['bs_scaled', 'cf_scaled'] and
+             bool(calls_) and norm(rets[0].elts[2]) == norm(calls_[0].args[0]), 'the factor that was applied is returned with the scaled poses')
     # ---- R6: ray / deck-plane intersection (what the sensor diagonal is measured with) -----------
     ip = S.method('calc_intersection_point')
     sti = {norm(s_.targets[0]): norm(s_.value) for s_ in ip.node.body if isinstance(s_, ast.Assign)}
@@ -241,8 +258,9 @@ def check(ctx):
              'the two deck diagonals are sensors 0-3 and 1-2, measured with the matching base station and Crazyflie pose; found %s' % dg)
 
     for f in (fp, sd):
-        rets = [norm(s.value) for s in walk_own(f.node) if isinstance(s, ast.Return)]
-        ctx.inst('R5', f, 'delegates', rets == ['cls._scale_system(%s, %s, scale_factor)' % (f.params[1], f.params[2])], 'scaling is done by _scale_system(bs_poses, cf_poses, factor)')
+        rets = [s.value for s in walk_own(f.node) if isinstance(s, ast.Return)]
+        ok = len(rets) == 1 and isinstance(rets[0], ast.Call) and norm(rets[0].func) == 'cls._scale_system' and [norm(a) for a in rets[0].args[:2]] == [f.params[1], f.params[2]]
+        ctx.inst('R5', f, 'delegates', ok, 'scaling is done by _scale_system(bs_poses, cf_poses, ...) on the caller\'s poses')
 
 
 VARIANTS = [
